@@ -55,7 +55,6 @@ func hook(in *vm.VerifInstr) {
 	c.prevOp, c.lastOp = c.lastOp, in.Instr.Opcode
 	if c.fault == "" {
 		if s := precondition(in); s != "" {
-			c.prevOp = c.prevOp // instruction executed before the faulting one
 			c.fault = s
 			c.faultAt = fmt.Sprintf("pc=%d instr=%v stack=%s", in.PC, in.Instr, stackKinds(in.Stack))
 		}
